@@ -35,6 +35,7 @@ def run(tier):
         lines = rg.gen_mutants(rng, o, n if o == D else n // 3)
         wants = []
         lines += rg.gen_valid(rng, o, n // 4, wants)
+        lines += rg.gen_long_tokens(rng, o, n // 4)
         rk.run_feed(chk, wd, f"json-{rc.opt_name(o)}", lines, None, [(l, bins[l]) for l in labels])
     rk.run_mc(chk, wd, rk.group_by_opts(bins, variants[:2]), [("chars", "chars", 4, [0, 1, 10], "none", D)])
     # MessagePack: every encoding, prefix, corruption and random bytes (bounded kinds only)
